@@ -2,6 +2,7 @@ import GitBugModel.Model.Conc
 import GitBugModel.Gen.Locks
 import GitBugModel.Gen.LockNest
 import GitBugModel.Lemmas.RWLock
+import GitBugModel.Lemmas.RWProg
 /-!
 # C18 — concurrent use of one cache loses no acknowledged edit
 -/
@@ -218,6 +219,84 @@ theorem gen_lock_order :
     GitBugModel.Gen.LockNest.acquiring.contains "SUB:AllIds" = true ∧
     GitBugModel.Gen.LockNest.acquiring.contains "ENT:Commit" = true := by
   decide
+
+
+/-! ## goroutines as programs: every run stays within `deadlock_free`'s hypothesis -/
+
+section Programs
+open GitBugModel.RWLock GitBugModel.RWProg
+
+/-- `run_no_deadlock`: any number of goroutines, each running a program that asks only for
+mutexes larger than all it holds and releases what it took before it returns (`Safe`), under any
+schedule: as long as some goroutine has not returned, some goroutine can step.  This closes the gap
+between the lock requests found in the source and the configurations `deadlock_free` is about:
+the well-formedness it assumes is an invariant of every run (`Lemmas/RWProg`: `inv_init`,
+`inv_pstep`, `inv_run`, `inv_wf`). -/
+theorem run_no_deadlock (progs : List (List Instr)) (hsafe : ∀ p ∈ progs, Safe [] p) (sched : List Nat) :
+    (∃ t ∈ (run (init progs) sched).conf.tids, (run (init progs) sched).conf.st t ≠ .done) →
+    deadlocked (run (init progs) sched).conf = false :=
+  deadlock_free _ (inv_wf _ (inv_run _ (inv_init progs hsafe) sched))
+
+/-- no goroutine ever holds a mutex it is asking for, and what it holds is below what it asks for -/
+theorem run_respects_order (progs : List (List Instr)) (hsafe : ∀ p ∈ progs, Safe [] p) (sched : List Nat)
+    (t m : Nat) (hreq : request ((run (init progs) sched).conf.st t) = some m) :
+    ∀ m', t ∈ holders (run (init progs) sched).conf m' → m' < m :=
+  (inv_wf _ (inv_run _ (inv_init progs hsafe) sched)).ordered t m hreq
+
+/-- mutex numbers of the cache: the sub-cache's mutex, then the entities', then the snapshots' -/
+def SUB : Nat := 0
+def ENT (i : Nat) : Nat := 1 + 2 * i
+def SNAP (i : Nat) : Nat := 2 + 2 * i
+
+/-- the lock requests of the cache's calls, in the order the source makes them (the order and the
+absence of nesting are what `gen_lock_order` regenerates): an edit of entity `i` followed by the
+notification of the sub-cache and the writing of the excerpt file; a commit; `Resolve` with its
+second look; a query -/
+def editCall (i : Nat) : List Instr :=
+  [.lock (ENT i), .lock (SNAP i), .work, .unlock (SNAP i), .unlock (ENT i), .lock SUB, .work, .unlock SUB, .rlock SUB, .work, .runlock SUB]
+def commitCall (i : Nat) : List Instr :=
+  [.lock (ENT i), .work, .unlock (ENT i), .lock SUB, .work, .unlock SUB, .rlock SUB, .work, .runlock SUB]
+def resolveCall : List Instr := [.rlock SUB, .runlock SUB, .work, .lock SUB, .work, .unlock SUB]
+def queryCall : List Instr := [.rlock SUB, .work, .runlock SUB, .rlock SUB, .runlock SUB]
+
+theorem cache_calls_safe (i : Nat) :
+    Safe [] (editCall i) ∧ Safe [] (commitCall i) ∧ Safe [] resolveCall ∧ Safe [] queryCall := by
+  refine ⟨?_, ?_, ?_, ?_⟩ <;> simp [Safe, editCall, commitCall, resolveCall, queryCall, SUB, ENT, SNAP] <;> omega
+
+/-- a sequence of safe calls is a safe program -/
+theorem safe_append (p q : List Instr) (hp : Safe [] p) (hq : Safe [] q) : Safe [] (p ++ q) := by
+  suffices ∀ (h : Held) (p : List Instr), Safe h p → Safe h (p ++ q) from this [] p hp
+  intro h p
+  induction p generalizing h with
+  | nil => intro hh; simp only [Safe] at hh; subst hh; simpa using hq
+  | cons i r ih =>
+    intro hh
+    cases i <;> simp only [List.cons_append, Safe] at hh ⊢
+    · exact ⟨hh.1, ih _ hh.2⟩
+    · exact ⟨hh.1, ih _ hh.2⟩
+    · exact ⟨hh.1, ih _ hh.2⟩
+    · exact ⟨hh.1, ih _ hh.2⟩
+    · exact ih _ hh
+
+/-- the program of `Query(nil)` on the pinned tree — a read lock asked for again while held — is not
+safe, and with a writer arriving in between the run deadlocks (the program-level counterpart of
+`nested_rlock_deadlocks`) -/
+theorem nested_program_deadlocks :
+    ¬ Safe [] [.rlock SUB, .rlock SUB, .runlock SUB, .runlock SUB] ∧
+    deadlocked (run (init [[.rlock SUB, .rlock SUB, .runlock SUB, .runlock SUB], [.lock SUB, .unlock SUB]]) [0, 1, 0]).conf = true := by
+  constructor
+  · simp [Safe, SUB]
+  · decide
+
+/-! non-vacuity: two goroutines (a resolve with its second look under the write lock, a query) run to
+the end, the writer having waited for the reader -/
+set_option maxRecDepth 4000 in
+example :
+    let s := run (init [resolveCall, queryCall]) [0, 1, 0, 1, 0, 1, 0, 1, 0, 1, 0, 1, 0, 1, 0, 1, 0, 1, 0, 1, 0, 1, 0, 1]
+    (s.conf.st 0, s.conf.st 1) = (.done, .done) := by
+  decide
+
+end Programs
 
 /-! ## regenerated obligations: the locks found in the source now -/
 
